@@ -90,7 +90,7 @@ class NodePath(list):
         elif check_types:
             for i, c in enumerate(path):
                 # we need to check it because if something is not a string nor an int it's ambiguous which casting should be done
-                if not isinstance(c, str) and (not isinstance(c, int) or isinstance(c, bool)):
+                if not isinstance(c, (str, float)) and (not isinstance(c, int) or isinstance(c, bool)): # yaml mappings can have float keys
                     raise ValueError(f'node path should be a list of ints and/or str only, got {type(c)} at position {i}: {c}')
 
         return NodePath(path)
